@@ -491,11 +491,26 @@ func main() {
 			rep.Fatal(f, "%v", err)
 		}
 		var w struct {
-			Property string `json:"property"`
-			Replay   Case   `json:"replay"`
+			Property  string `json:"property"`
+			Engine    string `json:"engine"`
+			Signature string `json:"signature"`
+			Replay    Case   `json:"replay"`
 		}
 		if err := json.Unmarshal(b, &w); err != nil {
 			rep.Fatal(f, "%v", err)
+		}
+		if strings.HasSuffix(w.Engine, "full") {
+			// the full-stack families are a short fixed list: run them again and look for the finding
+			fr := &rep.Result{Property: w.Property, Engine: "syncx/full", Exhaustive: true, Bounds: map[string]any{}}
+			engineFull(f, fr)
+			for _, x := range fr.Findings {
+				if x.Signature == w.Signature {
+					fmt.Printf("FINDING %s: %s\nVIOLATION property=%s replay=%s\n", x.Signature, x.Message, w.Property, f.Replay)
+					os.Exit(1)
+				}
+			}
+			fmt.Println("no violation")
+			return
 		}
 		v, sig, msgs := run(&w.Replay)
 		fmt.Printf("case: %s\nmessages: %d\n", w.Replay.String(), msgs)
